@@ -118,6 +118,12 @@ def one_record(seed):
     kind, v = gen_value(rng)
     _k2, other = gen_value(rng)
     overwrite = rng.random() < 0.5
+    if rng.random() < 0.15:
+        # values that compare equal in Python across types: the new value must still win, with its own type
+        group = rng.choice(([True, 1, 1.0, Decimal("1.0")], [False, 0, 0.0, Decimal("0")]))
+        v, other = rng.sample(group, 2)
+        kind = kind_of(v)
+        overwrite = True
     integral = kind in ("int", "float", "decimal") and Decimal(str(v)) == Decimal(str(v)).to_integral_value()
     rec = {"carrier": carrier, "kind": kind, "integral": bool(integral), "repr": repr(v)[:80], "over": (repr(other)[:40] if overwrite else "")}
     O = "{urn:oasis:names:tc:opendocument:xmlns:office:1.0}"
